@@ -1173,3 +1173,92 @@ g18.fallback = ("From Coq Require Import List String.\nFrom XV Require Import Mo
                 "Open Scope string_scope.\n"
                 "Definition gen_bodies : list (string * string * list string * list action) := "
                 "[(\"?\", \"extractor unavailable\", [], [AMutate \"?\"])].\nDefinition gen_bodies_read : nat := 0.")
+
+
+# ----------------------------------------------------------------------------------------
+# G13: places where the spelling of a name could matter -- string methods that look inside
+# a string, ordering of strings, and string concatenation -- in the files that handle axis,
+# dimension and variable names.
+
+NAME_FILES = ["grid.py", "axis.py", "padding.py", "grid_ufunc.py", "transform.py", "metrics.py", "comodo.py",
+              "sgrid.py", "metadata_parsers.py"]
+STRING_METHODS = {"replace", "startswith", "endswith", "find", "rfind", "index", "rindex", "split", "rsplit",
+                  "partition", "rpartition", "strip", "lstrip", "rstrip", "lower", "upper", "title", "capitalize",
+                  "casefold", "swapcase", "zfill", "ljust", "rjust", "center", "count", "translate", "removeprefix",
+                  "removesuffix", "isalpha", "isdigit", "isalnum", "isupper", "islower", "isidentifier"}
+
+
+class NameSites(ast.NodeVisitor):
+    def __init__(self, fname):
+        self.fname = fname
+        self.func = "<module>"
+        self.sites = []
+
+    def flag(self, kind, e):
+        self.sites.append((self.fname, self.func, kind, " ".join(ast.unparse(e).split())[:90]))
+
+    def visit_FunctionDef(self, n):
+        saved = self.func
+        self.func = n.name if self.func == "<module>" else self.func + "." + n.name
+        body = n.body
+        # a docstring is not code
+        if body and isinstance(body[0], ast.Expr) and isinstance(body[0].value, ast.Constant) \
+                and isinstance(body[0].value.value, str):
+            body = body[1:]
+        for s in body:
+            self.visit(s)
+        self.func = saved
+
+    def visit_Call(self, n):
+        f = n.func
+        if isinstance(f, ast.Attribute) and f.attr in STRING_METHODS:
+            # list.index / list.count are not string operations when the receiver is visibly a list
+            if not (f.attr in ("index", "count") and isinstance(f.value, (ast.List, ast.ListComp))):
+                self.flag("str." + f.attr, n)
+        if isinstance(f, ast.Name) and f.id in ("sorted", "min", "max") and n.args:
+            self.flag(f.id, n)
+        if isinstance(f, ast.Attribute) and f.attr == "sort":
+            self.flag("list.sort", n)
+        if isinstance(f, ast.Attribute) and isinstance(f.value, ast.Name) and f.value.id == "re":
+            self.flag("re." + f.attr, n)
+        if isinstance(f, ast.Name) and f.id == "len" and n.args and isinstance(n.args[0], (ast.Name, ast.Attribute)) \
+                and ("name" in ast.unparse(n.args[0]).lower() or "dim" in ast.unparse(n.args[0]).lower()
+                     and not ast.unparse(n.args[0]).endswith("dims")):
+            self.flag("len-of-name", n)
+        self.generic_visit(n)
+
+    def visit_BinOp(self, n):
+        def is_str(e):
+            return isinstance(e, ast.Constant) and isinstance(e.value, str)
+        if isinstance(n.op, ast.Add) and (is_str(n.left) or is_str(n.right)):
+            self.flag("concat", n)
+        self.generic_visit(n)
+
+    def visit_Compare(self, n):
+        def is_str(e):
+            return isinstance(e, ast.Constant) and isinstance(e.value, str)
+        for op, c in zip(n.ops, n.comparators):
+            if isinstance(op, (ast.In, ast.NotIn)) and is_str(c):
+                self.flag("substring-test", n)      # x in "literal": substring, not membership
+            if isinstance(op, (ast.Lt, ast.LtE, ast.Gt, ast.GtE)) and (is_str(n.left) or is_str(c)):
+                self.flag("string-order", n)
+        self.generic_visit(n)
+
+
+@extractor("G13")
+def g13():
+    sites = []
+    for fname in NAME_FILES:
+        v = NameSites(fname)
+        v.visit(parse(fname))
+        sites += v.sites
+    rows = [f"({cstr(a)}, {cstr(b)}, {cstr(c)}, {cstr(d)})" for a, b, c, d in sorted(set(sites))]
+    out = ["From Coq Require Import List String.", "Import ListNotations.", "Open Scope string_scope.",
+           "(* (file, function, kind, expression) *)",
+           "Definition gen_name_sensitive_sites : list (string * string * string * string) := " + clist(rows) + "."]
+    return "\n".join(out)
+
+
+g13.fallback = ("From Coq Require Import List String.\nImport ListNotations.\nOpen Scope string_scope.\n"
+                "Definition gen_name_sensitive_sites : list (string * string * string * string) := "
+                "[(\"?\", \"?\", \"extractor unavailable\", \"?\")].")
